@@ -646,12 +646,17 @@ class QWorld:
             self.col2 = self.mk_collector(name + ".R2", self.R2, [self.other], False)
 
     def mk_collector(self, name, remote, data, done):
+        """a collector in the state the code itself produces: created `elapsed` ago (so its
+        window closes within `timeout` from now), filled through append, and -- for the
+        expired one -- closed by its own timer firing (now is then the very instant the
+        window closes, or any later one)"""
         vc = self.vc
+        elapsed = vc.real(name + ".elapsed", 0)
+        vc.assume(elapsed <= self.timeout)
+        t_now = self.loop.now
+        self.loop.now = t_now - elapsed
         c = SD.SendCollector(self.timeout, self.prot.send_sd, remote=remote)
-        # it was created some time ago: its window closes within `timeout` from now
-        remaining = vc.real(name + ".remaining", 0)
-        vc.assume(remaining <= self.timeout)
-        c._handle.when = self.loop.now + remaining
+        self.loop.now = t_now
         # what was queued before: an arbitrary number of entries, then `data` (a replay on the
         # real code starts from a collector that was filled through its own append only)
         if not vc.native:
@@ -659,8 +664,11 @@ class QWorld:
         for d in data:
             c.append(d)
         if done:
-            c.done = True
-            c._handle.fired = True
+            n0 = len(self.sends)
+            self.loop.fire(c._handle)  # time is now the collector's deadline
+            self.loop.now = self.loop.now + vc.real(name + ".time_since_the_window_closed", 0)
+            while len(self.sends) > n0:
+                self.sends.pop()  # what the expired collector sent is not part of the obligation
         self.ann.send_queues[remote] = c
         return c
 
